@@ -849,12 +849,58 @@ fn check_terminfo_store(ctx: &mut Ctx, tis: &[Ti], model: bool) {
 }
 
 // ------------------------------------------------------------------------------------------
+// a program of seeks on one BlockSegmentPostings (lazy skip reader + load_block + in-block search)
+// ------------------------------------------------------------------------------------------
+/// Real `BlockSegmentPostings::seek` sequence on the real bytes of a list; for non-decreasing
+/// targets every answer must be the first doc >= target (TERMINATED if none); the Lean lazy
+/// cursor model (`BlockPostings.seekAll`, op `lazyseeks`) must answer the same for any sequence.
+fn check_lazy_seeks(ctx: &mut Ctx, opt: Opt, l: &(Vec<u32>, Vec<u32>), targets: &[u32], model: bool) {
+    use crate::props::c07::real_postings_bytes;
+    let case = json!({"kind": "lazy-seeks", "opt": opt.name(), "docs": l.0, "tfs": l.1, "targets": targets});
+    let sorted = targets.windows(2).all(|w| w[0] <= w[1]);
+    ctx.report.case(&format!("lazy-seeks|{}|{}|{}|{sorted}", opt.name(), l.0.len(), targets.len()), !l.0.is_empty() && !targets.is_empty());
+    ctx.report.count("lazy-seeks");
+    let tfs: Vec<u32> = if opt == Opt::Basic { vec![1; l.0.len()] } else { l.1.clone() };
+    let r = catch_unwind(AssertUnwindSafe(|| -> Result<(Vec<u8>, Vec<u32>), String> {
+        let bytes = real_postings_bytes(opt, &l.0, &tfs);
+        let mut cur = tantivy::verif::c07_open_block_postings(l.0.len() as u32, bytes.clone(), opt.real(), opt.real()).map_err(|e| e.to_string())?;
+        let mut out = vec![];
+        for &t in targets {
+            let idx = cur.seek(t);
+            out.push(cur.doc(idx));
+        }
+        Ok((bytes, out))
+    }));
+    let (bytes, out) = match r {
+        Ok(Ok(x)) => x,
+        Ok(Err(e)) => { ctx.report.violation("oracle", "C07:read-error", format!("lazy-seeks: {e}"), case); return; }
+        Err(p) => { ctx.report.violation("oracle", "C07:panic", format!("lazy-seeks ({} docs): {}", l.0.len(), panic_msg(p)), case); return; }
+    };
+    if sorted {
+        let want: Vec<u32> = targets.iter().map(|&t| l.0.iter().copied().find(|&d| d >= t).unwrap_or(tantivy::TERMINATED)).collect();
+        if out != want {
+            let i = out.iter().zip(&want).position(|(x, y)| x != y).unwrap_or(0);
+            ctx.report.violation("oracle", "C07:block-seek", format!("{}: BlockSegmentPostings::seek program on a {}-doc list: seek #{i} to {} landed on {:?}, first doc >= target is {:?}", opt.name(), l.0.len(), targets[i], out.get(i), want.get(i)), case.clone());
+        }
+    }
+    if model {
+        let m = ctx.model.ask(&format!("C07 lazyseeks {} {} {} {}", opt.name(), l.0.len(), hex(&bytes), crate::model::nat_list(targets)));
+        let real = crate::model::nat_list(&out);
+        if m != real {
+            let sh = |s: &str| if s.len() > 120 { format!("{}…", &s[..120]) } else { s.to_string() };
+            ctx.report.violation("model", "C07:model-lazyseek", format!("{}: seeks on {} docs: real {} model {}", opt.name(), l.0.len(), sh(&real), sh(&m)), case);
+        }
+    }
+}
+
+// ------------------------------------------------------------------------------------------
 pub fn obligations() -> Vec<String> {
     vec![
         "TermInfoStore bytes written through TermDictionaryBuilder = model `tis_write`; model `tis_get` of the real bytes = written TermInfo; TermDictionary::get = written TermInfo".into(),
         "serialize_vint_u32 bytes / read_u32_vint_no_advance = model (unrolled ladder with extracted thresholds); round trip on the real code".into(),
         "segments whose recorders see 2^(7k)-1, 2^(7k), 2^(7k)+1 as position+1, term frequency or doc-id gap read back exactly".into(),
         "index sorted by a fast field (doc_id_map branch of Recorder::serialize): read-back = inversion in the new order = model `pipeline_remap`".into(),
+        "a program of BlockSegmentPostings::seek calls lands on the first doc >= target each time and = the lazy cursor model (op lazyseeks)".into(),
         "recycled block cursor (read_block_postings_from_terminfo, advance/drain/seek, reset_block_postings_from_terminfo) enumerates exactly the new term".into(),
     ]
 }
@@ -869,6 +915,12 @@ pub fn replay(ctx: &mut Ctx, case: &J) -> bool {
             let opt = Opt::from_name(case["opt"].as_str().unwrap_or("")).unwrap_or(Opt::Basic);
             let has = ctx.model.ask("C07 recycle basic 0 - A0 0 -") != "bad-op";
             check_recycle_codec(ctx, opt, &(u("a_docs"), u("a_tfs")), &(u("b_docs"), u("b_tfs")), case["move"].as_str().unwrap_or("A0"), has);
+        }
+        "lazy-seeks" => {
+            let u = |k: &str| -> Vec<u32> { case[k].as_array().map(|a| a.iter().filter_map(|x| x.as_u64()).map(|x| x as u32).collect()).unwrap_or_default() };
+            let opt = Opt::from_name(case["opt"].as_str().unwrap_or("")).unwrap_or(Opt::Basic);
+            let has = ctx.model.ask("C07 lazyseeks basic 0 - -") != "bad-op";
+            check_lazy_seeks(ctx, opt, &(u("docs"), u("tfs")), &u("targets"), has);
         }
         "sorted-index" => check_sorted_index(ctx, case["state"].as_str().and_then(|s| s.parse().ok()).unwrap_or(0)),
         "json-recycle" => check_json_recycle(ctx, case["ndocs"].as_u64().unwrap_or(300) as u32, Opt::from_name(case["opt"].as_str().unwrap_or("")).unwrap_or(Opt::Freqs)),
@@ -926,6 +978,28 @@ pub fn run(ctx: &mut Ctx, model_has_vint32: bool) {
             _ => if da.is_empty() { "A1".to_string() } else { format!("S{}", da[rng2.usize_below(da.len())]) },
         };
         check_recycle_codec(ctx, opt, &(da, ta), &(db, tb), &mv, has_recycle);
+    }
+    let has_lazy = ctx.model.ask("C07 lazyseeks basic 0 - -") != "bad-op";
+    if !has_lazy {
+        ctx.report.violation("model", "C07:model-unavailable", "the Lean driver answers bad-op for lazyseeks".into(), json!({"kind": "probe"}));
+    }
+    let mut rng3 = ctx.rng.fork();
+    for _ in 0..ctx.budget(120, 2500) {
+        let opt = *rng3.pick(&[Opt::Basic, Opt::Freqs, Opt::Positions]);
+        let (d, t, _) = crate::props::c07::gen_posting_list(&mut rng3);
+        let n = 1 + rng3.usize_below(6);
+        let top = d.last().copied().unwrap_or(10) + 3;
+        let mut targets: Vec<u32> = (0..n).map(|_| match rng3.below(6) {
+            0 if !d.is_empty() => d[rng3.usize_below(d.len())],
+            1 if !d.is_empty() => d[rng3.usize_below(d.len())] + 1,
+            2 if d.len() >= 128 => d[(128 * (1 + rng3.usize_below(d.len() / 128)) - 1).min(d.len() - 1)] + rng3.below(2) as u32,
+            3 => tantivy::TERMINATED,
+            _ => rng3.below(top as u64 + 1) as u32,
+        }).collect();
+        if rng3.below(5) != 0 {
+            targets.sort();
+        }
+        check_lazy_seeks(ctx, opt, &(d, t), &targets, has_lazy);
     }
     for (ndocs, opt) in [(50u32, Opt::Freqs), (400, Opt::Basic), (400, Opt::Freqs), (400, Opt::Positions)] {
         check_json_recycle(ctx, ndocs, opt);
